@@ -274,3 +274,115 @@ def decompress_dispatch(ctx, mir, stats):
     obs.append({"id": "decompress:otherwise-returns-err", "ok": bool(errs) and not oks and bool(rets), "functions": [f.name],
                 "detail": "from the unsupported-depth edge: Err built in %s, Ok built in %s" % (errs, oks), "where": f.name})
     return obs
+
+
+# --------------------------------------------------------------------------
+# generic: no arithmetic-overflow / bounds assert of a function can fail when
+# wire-derived values are unconstrained (call results and loads = fresh symbols)
+# --------------------------------------------------------------------------
+def fn_asserts(fn_regex, what, call_model=None, loop_bound=1, native=None, only_msgs=r"attempt to|index out of bounds|divide|remainder"):
+    def fn(ctx, mir, stats):
+        f = find_fn(mir, fn_regex)
+        se = SymExec(f, stats, call_model=call_model, loop_bound=loop_bound, max_paths=20000).run()
+        obs = []
+        seen = set()
+        for (p, bname, msg, cond, text) in se.asserts:
+            if not re.search(only_msgs, msg):
+                continue
+            key = (bname, msg)
+            if cond is None:
+                verdict, mdl = "sat", {}
+            else:
+                verdict, mdl, smt = se.check(p, [z3.Not(cond)], "assert")
+            if verdict == "unsat" and key in seen:
+                continue
+            if verdict == "sat" and (key, "bad") in seen:
+                continue
+            seen.add(key if verdict == "unsat" else (key, "bad"))
+            o = {"id": "%s:%s:%s" % (f.name[-40:], bname, msg[:40]), "ok": verdict == "unsat", "functions": [f.name],
+                 "detail": ("`%s` cannot fail on this path" % msg) if verdict == "unsat" else "wire values %s make `%s` fail in %s [%s]" % (mdl, msg, f.name, what),
+                 "cex": mdl, "path": p.trace, "where": "%s %s" % (f.name, bname)}
+            if verdict == "sat" and native:
+                o["native"] = native(mdl)
+            obs.append(o)
+        # drop 'ok' duplicates of a failing block (another path through the same block may be safe)
+        bad_blocks = {o["where"] for o in obs if not o["ok"]}
+        obs = [o for o in obs if not (o["ok"] and o["where"] in bad_blocks)]
+        if not obs:
+            obs.append({"id": "%s:no-arith-asserts" % f.name[-40:], "ok": True, "functions": [f.name],
+                        "detail": "no panicking arithmetic in %s (%d paths explored; checked arithmetic or none)" % (f.name, len(se.finished))})
+        return obs
+    return fn
+
+
+def gcc_call_model(se, path, t, args):
+    f = t["func"]
+    if re.search(r"as Message>::length$", f):
+        # block_header() is 4 bytes (decided by c04_gcc_block_header)
+        return z3.BitVecVal(4, 64)
+    return None
+
+
+GCC_PREFIX = "0x00, 0x05, 0x00, 0x14, 0x7c, 0x00, 0x01, 0x2a, 0x14, 0x76, 0x0a, 0x01, 0x01, 0x00, 0x01, 0xc0, 0x00, b'M', b'c', b'D', b'n'"
+
+
+def gcc_native(mdl):
+    return {"test": "verif_replay_gcc_block_len", "files": {"src/core/gcc.rs": """
+#[cfg(test)]
+mod verif_replay {
+    use super::*;
+    #[test]
+    fn verif_replay_gcc_block_len() {
+        // valid PER prefix, user data length 4, one block header with declared length 0..3
+        for len in 0u8..4 {
+            let mut v = vec![%s, 4, 0x01, 0x0c, len, 0];
+            let _ = read_conference_create_response(&mut Cursor::new(&mut v[..]));
+        }
+    }
+}""" % GCC_PREFIX}}
+
+
+def per_native(mdl):
+    return {"test": "verif_replay_per_int16", "files": {"src/core/per.rs": """
+#[cfg(test)]
+mod verif_replay {
+    use super::*;
+    use std::io::Cursor;
+    #[test]
+    fn verif_replay_per_int16() {
+        let _ = read_integer_16(1001, &mut Cursor::new(vec![0xff, 0xff]));
+    }
+}"""}}
+
+
+def no_reachable_call(fn_regex, callee_regex, what, native=None):
+    """E2: no call matching callee_regex is reachable from the entry of the function (z3 fixedpoint + BFS cross-check)."""
+    def fn(ctx, mir, stats):
+        f = find_fn(mir, fn_regex)
+        obs = []
+        hits = call_blocks(f, callee_regex)
+        for b in hits:
+            r = fp_reachable(f, f.order[0], b, stats)
+            o = {"id": "%s:%s:unreachable" % (f.name[-40:], b), "ok": not r, "functions": [f.name],
+                 "detail": "%s at %s (%s) is %sreachable" % (what, b, f.blocks[b].t["func"][:80], "" if r else "un"), "where": "%s %s" % (f.name, b)}
+            if r and native:
+                o["native"] = native({})
+            obs.append(o)
+        if not hits:
+            obs.append({"id": "%s:no-such-call" % f.name[-40:], "ok": True, "functions": [f.name], "detail": "no %s in %s (%d blocks)" % (what, f.name, len(f.order))})
+        return obs
+    return fn
+
+
+def gcc_native_noblocks(mdl):
+    return {"test": "verif_replay_gcc_no_blocks", "files": {"src/core/gcc.rs": """
+#[cfg(test)]
+mod verif_replay2 {
+    use super::*;
+    #[test]
+    fn verif_replay_gcc_no_blocks() {
+        let mut v = vec![%s, 0];
+        let r = read_conference_create_response(&mut Cursor::new(&mut v[..]));
+        assert!(r.is_err());
+    }
+}""" % GCC_PREFIX}}
